@@ -10,9 +10,6 @@ EXTENDS Deviations, Json, IOUtils
 
 Rec == ndJsonDeserialize(IOEnv.TRACE)
 
-VARIABLES l, cur
-vars == <<l, cur>>
-
 HasF(r, f) == f \in DOMAIN r
 Crashed(e) == HasF(e.post, "crash")
 
@@ -67,23 +64,102 @@ JudgeStep(e, pre) ==
       msg |-> IF Crashed(e) THEN e.post.msg ELSE ""]
 
 Blank(v, subj) == [v |-> v, subj |-> subj, owner |-> "", dev |-> "", fields |-> <<>>, frame |-> <<>>, msg |-> ""]
+Verdict(v, subj, owner, fields, msg) ==
+  [v |-> v, subj |-> subj, owner |-> owner, dev |-> "", fields |-> fields, frame |-> <<>>, msg |-> msg]
+
+\* what the harness probe instruction records: INDEX.CURRENT of the top index (-1 if none) and the top INTEGER
+ProbeTick(s) == [cur |-> IF s.index = <<>> THEN -1 ELSE s.index[1].cur,
+                 has |-> s.int # <<>>, int |-> IF s.int = <<>> THEN 0 ELSE s.int[1]]
+ExpectedTicks(pre) == IF pre.exec # <<>> /\ pre.exec[1] = IIns("VERIF.PROBE") THEN <<ProbeTick(pre)>> ELSE <<>>
+TicksOf(e) == IF HasF(e, "ticks") THEN e.ticks ELSE <<>>
+
+JudgeStepT(e, pre) ==
+  LET j == JudgeStep(e, pre) IN
+  IF j.v = "ok" /\ TicksOf(e) # ExpectedTicks(pre)
+  THEN Verdict("mismatch", j.subj, "C06", <<"ticks">>, "probe log differs from the specification")
+  ELSE j
+
+\* copying the program to the CODE stack keeps its order (the top of EXEC becomes the top of CODE)
+JudgeCopy(e, pre) ==
+  IF Crashed(e) THEN Verdict("crash", "copy_to_code", "C02", <<>>, e.post.msg)
+  ELSE IF e.post = [pre EXCEPT !.code = pre.exec \o pre.code] THEN Blank("ok", "copy_to_code")
+  ELSE Verdict("mismatch", "copy_to_code", "C02", <<"code">>, "")
+
+\* behaviour-level expectation of a case (emitted by TLC from the bounded behaviour model):
+\* the complete probe log and the final contents of some fields
+JudgeEnd(e, tainted) ==
+  IF tainted THEN Blank("ok", "end")
+  ELSE LET x == e.expect
+           badT == HasF(x, "ticks") /\ x.ticks # e.all_ticks
+           badF == {x.fields[i][1] : i \in {k \in 1..Len(x.fields) : e.post[x.fields[k][1]] # x.fields[k][2]}}
+       IN IF ~badT /\ badF = {} THEN Blank("ok", "end")
+          ELSE Verdict("mismatch", "end:" \o x.what, x.owner, SetAsSeq(badF) \o (IF badT THEN <<"ticks">> ELSE <<>>),
+                       "behaviour differs from the expectation TLC derived from the specification")
+
+\* the run loop fed with the recorded single steps: ch[1] = state after copy_to_code, ch[j+1] after j steps
+RECURSIVE RunMachine(_, _, _, _)
+RunMachine(ch, s, limit, cap) ==
+  IF s > limit THEN [out |-> "StepLimitExceeded", fin |-> ch[s + 1].st, steps |-> s]
+  ELSE IF s + 2 > Len(ch) THEN [out |-> "undetermined", fin |-> ch[1].st, steps |-> s]
+  ELSE IF ch[s + 2].done THEN [out |-> "NoErrors", fin |-> ch[s + 2].st, steps |-> s]
+  ELSE IF StateSize(ch[s + 2].st) > StateSize(ch[s + 1].st) + cap
+       THEN [out |-> "GrowthCapExceeded", fin |-> ch[s + 2].st, steps |-> s + 1]
+  ELSE RunMachine(ch, s + 1, limit, cap)
+
+SleepMs == 40    \* duration of the harness instruction VERIF.SLEEP
+JudgeRun(e, ch, tainted) ==
+  IF Crashed(e) THEN Verdict("crash", "run", "C02", <<>>, e.post.msg)
+  ELSE IF tainted \/ Len(ch) < 2 THEN Blank("ok", "run")
+  ELSE LET c2 == SubSeq(ch, 2, Len(ch))       \* drop the state before copy_to_code
+           cfg == c2[1].st.cfg
+           m  == RunMachine(c2, 0, cfg.push_limit, cfg.growth_cap)
+           sleeps == IF HasF(e, "sleeps") THEN e.sleeps ELSE 0
+       IN \* time: only one-sided, causally sound inequalities (never a wall-clock equality)
+          IF e.ret = "TimeLimitExceeded"
+          THEN (IF e.elapsed_ms > cfg.time_limit /\ \E k \in 1..Len(c2) : e.post = c2[k].st
+                THEN Blank("ok", "run:time")
+                ELSE Verdict("mismatch", "run", "C02", <<"outcome">>,
+                             "TimeLimitExceeded although only " \o ToString(e.elapsed_ms) \o " ms elapsed, or the state left behind is not a state of the single-step chain"))
+          ELSE IF (sleeps - 1) * SleepMs > cfg.time_limit
+          THEN Verdict("mismatch", "run", "C02", <<"outcome">>,
+                       "the time limit had passed before the last of " \o ToString(sleeps) \o " sleeps but run() went on")
+          ELSE IF m.out = "undetermined" THEN Blank("ok", "run:undetermined")
+          ELSE IF e.ret = m.out /\ e.post = m.fin /\ (HasF(e.act, "xout") => e.ret = e.act.xout) THEN Blank("ok", "run")
+          ELSE Verdict("mismatch", "run", "C02",
+                       (IF e.ret # m.out THEN <<"outcome">> ELSE <<>>) \o SetAsSeq({f \in AllFields : e.post[f] # m.fin[f]}),
+                       "run() returned " \o e.ret \o ", the loop machine fed with the recorded steps gives " \o m.out
+                        \o " after " \o ToString(m.steps) \o " steps")
+
+VARIABLES l, cur, chain, taint
+vars == <<l, cur, chain, taint>>
+
 Judge(e, pre) ==
   CASE HasF(e, "envelope") -> Blank("envelope", e.envelope)
-    [] e.act.a = "step" -> JudgeStep(e, pre)
+    [] e.act.a = "step" -> JudgeStepT(e, pre)
+    [] e.act.a = "copy_to_code" -> JudgeCopy(e, pre)
+    [] e.act.a = "end" -> JudgeEnd(e, taint)
+    [] e.act.a = "run_from_start" -> JudgeRun(e, chain, taint)
     [] OTHER -> Blank("unknown-act", e.act.a)
 
-Init == l = 1 /\ cur = EmptyState
+Init == l = 1 /\ cur = EmptyState /\ chain = <<>> /\ taint = FALSE
 
 Consume ==
   /\ l <= Len(Rec)
   /\ LET e   == Rec[l]
-         pre == IF HasF(e, "pre") THEN e.pre ELSE cur
+         first == HasF(e, "pre")
+         pre == IF first THEN e.pre ELSE cur
          j   == Judge(e, pre)
+         keeps == e.act.a \in {"end", "run_from_start"}     \* events that do not advance the chain
      IN /\ ((j.v # "ok" \/ j.frame # <<>>) => PrintT("EV " \o ToJson([l |-> l, id |-> e.id, i |-> e.i, j |-> j])))
-        /\ cur' = IF Crashed(e) THEN EmptyState ELSE e.post
+        /\ cur' = IF Crashed(e) THEN EmptyState ELSE IF keeps THEN pre ELSE e.post
+        /\ chain' = IF Crashed(e) THEN <<>>
+                    ELSE IF keeps THEN chain
+                    ELSE (IF first THEN <<[st |-> e.pre, done |-> FALSE]>> ELSE chain)
+                         \o <<[st |-> e.post, done |-> IF HasF(e, "ret") /\ e.act.a = "step" THEN e.ret ELSE FALSE]>>
+        /\ taint' = IF first THEN j.v \notin {"ok"} ELSE (taint \/ j.v \notin {"ok"})
   /\ l' = l + 1
 
-Finish == l = Len(Rec) + 1 /\ PrintT("DONE " \o ToString(Len(Rec))) /\ l' = l + 1 /\ UNCHANGED cur
+Finish == l = Len(Rec) + 1 /\ PrintT("DONE " \o ToString(Len(Rec))) /\ l' = l + 1 /\ UNCHANGED <<cur, chain, taint>>
 
 Next == Consume \/ Finish
 Spec == Init /\ [][Next]_vars
